@@ -42,3 +42,15 @@ check('C19', 'wiresim', 'exploration',
       'are generous by design so that slower-but-linear code does not alarm.',
       'deterministic simulation: virtual step clock + seeded faults + scaling series', 'DESIGN.md 3.4')
 PENDING.pop('C19', None)
+check('C12', 'objsim', 'exploration',
+      'Seeded operation histories (append, insert, extend, +=, pop, remove, del, item and slice assignment, reverse, '
+      'clear; integer and slice positions incl. negative / out of range) over every concrete vector class, from start '
+      'vectors biased to both size bounds and bulk near-maximum vectors, compared after every operation with a plain '
+      'list that received the same operation: same contents, encoded body size (independent per-kind wire size model '
+      'and compose()) within [min, max], prefix == body length, a refused or failed edit changes nothing, an edit '
+      'leaving the bounds is refused with a data-length error; a fill/drain probe makes drifted bookkeeping observable.',
+      'Trusted: the list model, the per-kind size model (written from the wire formats), item pools harvested from '
+      'the corpus and enum tables. Not demanded: that every in-bounds edit is accepted.',
+      'deterministic simulation: seeded operation histories vs reference model (list), refused edits as injected faults',
+      'DESIGN.md 4.1')
+PENDING.pop('C12', None)
